@@ -547,11 +547,13 @@ class MemUnit(MethodUnit):
     }
 
     def props_of(self, name):
+        if "/c08:" in name:
+            return {"C08"}
         if "no_item_lost" in name or "returns_exactly_the_item" in name or "consumed_nothing" in name:
             return {"C12"}
         if "only_when_every" in name or "exactly_for_a_closed_handle" in name or "wakes_every" in name or "wakes_and_dequeues" in name or "reports_the_true_counts" in name:
             return {"C13"}
-        return set(self.props)
+        return set(self.props) - {"C08"}
 
     def on_entry(self, ip, pre, a):
         self.S = ip.st.get(self.handle_cls, "_state", self.self_val.t)
